@@ -417,6 +417,14 @@ pub fn replay(case: &serde_json::Value) -> i32 {
         println!("tower {kind} depth {depth}: {:?} (input starts {:?})", probe_subprocess(kind, depth as usize, 30), tower(kind, depth as usize).map(|s| s.chars().take(40).collect::<String>()));
         return 1;
     }
+    if case["part"].as_str() == Some("job-name") {
+        let script = case["script"].as_str().unwrap();
+        let mut setup = crate::vsh::Setup::script(script);
+        setup.auto_continue = false;
+        let r = crate::vsh::run_once(&setup, &Default::default());
+        println!("script:\n{script}\n--\nend={:?}\ntrace={:?}\nstderr={}", r.end, r.all_trace(), r.stderr);
+        return 1;
+    }
     let src = case["input"].as_str().unwrap();
     if let Some(al) = case["aliases"].as_array() {
         println!("input {src:?} parsed with the alias table {al:?}: run `./check C06` — the table is one of ALIAS_TABLES; a hang is reported by the 30 s watchdog");
@@ -584,7 +592,10 @@ pub fn run(tier: Tier) -> i32 {
             }
         }
     }
+    // (i) job names denote the commands that were entered
+    let job_names = super::c06j::run(&ctx);
     let cov = json!({
+        "job_names": job_names,
         "character_class_inputs": class_inputs,
         "inputs_parsed_with_alias_tables": alias_inputs,
         "tower_probes_in_subprocesses": tower_probes,
@@ -594,7 +605,7 @@ pub fn run(tier: Tier) -> i32 {
         "character_classes": classes.len(),
         "evaluations": counters.inputs.load(Relaxed) + counters.roundtrips.load(Relaxed),
         "distinct_nontrivial": counters.roundtrips.load(Relaxed),
-        "rule": format!("(a) every sequence of <= {tmax} tokens over {} tokens (words with every expansion kind, assignments, all reserved words, all operators, redirections with and without fd, here-document operators with a body, unclosed quotes / $( / ${{ / ` / $(( / $', comment, function headers); (b) every script of the scripted-test corpus ({} scripts) plus every single-token deletion, adjacent swap and truncation (and every character truncation of short ones); (c) every string of length <= {} over 25 raw characters incl. multi-byte; (d) lexer contexts with one hole x all 128 ASCII characters and Unicode class representatives, and with two adjacent holes; (e) every sequence of <= 3/4 tokens over 26 tokens parsed with each of 9 alias tables (self-recursive, mutually recursive, blank-ending chains, global aliases incl. self-referencing and cyclic ones, aliases producing reserved words and operators): the parser must terminate without panic; (f) towers of 9 nested constructs at every depth 1..12 in-process and at depths 30 and 100000 in a subprocess with a wall-clock limit; (g) here-documents `c <<D` / `c <<-D` for 11 delimiter spellings (plain, quoted in every style, empty, containing a blank, non-ASCII, partly quoted) x every body of <= 3/4 lines over ~14 lines built around the delimiter (itself, doubled, with a blank before / after, with leading tabs, a prefix, empty, tab-only) x 3 shapes (terminated and followed by a command, ending at the delimiter without newline, unterminated): content, the commands that follow, the error for an unterminated body, and the number of lines pulled from a counting line-by-line input when the command is returned (no read-ahead) against XCU 2.7.4 by hand; (h) read-ahead minimality: for every multi-line token sequence and corpus script the parser is fed line by line, and a command returned after line k must not be obtainable, identical, from the input cut after line k-1 (except after a backslash-newline). Every input must make the parser return Ok or Err without panic/hang; for every Ok tree without here-documents the printed text must parse to a structurally equal tree (Debug rendering with all Locations erased), in the default parsing mode and with the `portable` option on. Non-trivial = inputs that parsed and were round-tripped.", TOKENS.len(), scripts.len(), tier.pick(3, 4)),
+        "rule": format!("(a) every sequence of <= {tmax} tokens over {} tokens (words with every expansion kind, assignments, all reserved words, all operators, redirections with and without fd, here-document operators with a body, unclosed quotes / $( / ${{ / ` / $(( / $', comment, function headers); (b) every script of the scripted-test corpus ({} scripts) plus every single-token deletion, adjacent swap and truncation (and every character truncation of short ones); (c) every string of length <= {} over 25 raw characters incl. multi-byte; (d) lexer contexts with one hole x all 128 ASCII characters and Unicode class representatives, and with two adjacent holes; (e) every sequence of <= 3/4 tokens over 26 tokens parsed with each of 9 alias tables (self-recursive, mutually recursive, blank-ending chains, global aliases incl. self-referencing and cyclic ones, aliases producing reserved words and operators): the parser must terminate without panic; (f) towers of 9 nested constructs at every depth 1..12 in-process and at depths 30 and 100000 in a subprocess with a wall-clock limit; (g) here-documents `c <<D` / `c <<-D` for 11 delimiter spellings (plain, quoted in every style, empty, containing a blank, non-ASCII, partly quoted) x every body of <= 3/4 lines over ~14 lines built around the delimiter (itself, doubled, with a blank before / after, with leading tabs, a prefix, empty, tab-only) x 3 shapes (terminated and followed by a command, ending at the delimiter without newline, unterminated): content, the commands that follow, the error for an unterminated body, and the number of lines pulled from a counting line-by-line input when the command is returned (no read-ahead) against XCU 2.7.4 by hand; (h) read-ahead minimality: for every multi-line token sequence and corpus script the parser is fed line by line, and a command returned after line k must not be obtainable, identical, from the input cut after line k-1 (except after a backslash-newline); (i) job names: every C02 program of <= 3/4 nodes started as an asynchronous list, and foreground pipelines / subshells stopped in a set -m shell: the name recorded for the job parses to the command entered. Every input must make the parser return Ok or Err without panic/hang; for every Ok tree without here-documents the printed text must parse to a structurally equal tree (Debug rendering with all Locations erased), in the default parsing mode and with the `portable` option on. Non-trivial = inputs that parsed and were round-tripped.", TOKENS.len(), scripts.len(), tier.pick(3, 4)),
         "samples": samples.take(),
         "token_sequence_inputs": token_inputs,
         "corpus_scripts": scripts.len(),
